@@ -846,3 +846,35 @@ func genMicroNested(r *rand.Rand, g *Grid) ([][]Pt, bool) {
 	}
 	return poly, true
 }
+
+// genRepeatedLines: an (invalid) polygon in which the same directed line is walked more than once: a hole that touches
+// itself in a vertex (two triangles joined at their apex) given TWICE, or two holes that start with the same line, the
+// second coming back to the end of that line.  The second walk finds everything of the first already snapped: what is
+// recorded while an edge is snapped (which centres were hit, how often) must be recorded again.
+func genRepeatedLines(r *rand.Rand, g *Grid) ([][]Pt, bool) {
+	P := g.Res
+	size := int64(1) << g.Deep
+	if size < 16 {
+		return nil, false
+	}
+	bx, by := 1+r.Int63n(size-14), 1+r.Int63n(size-14)
+	f := func() int64 { return P * (4 + r.Int63n(56)) / 64 }
+	at := func(px, py int64) Pt { return Pt{g.Ext[0] + (bx+px)*P + f(), g.Ext[1] + (by+py)*P + f()} }
+	shell := []Pt{at(0, 0), at(12, 0), at(12, 12), at(0, 12)}
+	apex := at(6, 9)
+	var poly [][]Pt
+	if r.Intn(2) == 0 {
+		h := []Pt{apex, at(10, 4), at(8, 4), apex, at(4, 4), at(2, 4)}
+		h2 := append([]Pt{}, h...)
+		poly = [][]Pt{shell, h, h2}
+	} else {
+		b := at(10, 9)
+		h1 := []Pt{apex, b, at(8, 5)}
+		h2 := []Pt{apex, b, at(11, 7), at(10, 4), b, at(9, 3), at(6, 3)}
+		poly = [][]Pt{shell, h1, h2}
+	}
+	if !g.inGrid(poly) {
+		return nil, false
+	}
+	return poly, true
+}
